@@ -1,13 +1,21 @@
 """C05 Dependencies gate readiness; failed parents cancel children.
 
   R1  submission: a job is inserted Ready only on the path `first update and no parents`; n_pending_parents receives the number of
-      parents; every parent id yields a job_parents row (batch, job, parent)
-  R2  completion of a parent (mark_job_complete children update): the pending count drops by exactly one, the child becomes Ready iff
-      that was the last pending parent (threshold consistent with the assignment order), cancelled is raised iff the parent did not
-      succeed, and exactly the children of this job in this batch are touched
-  R3  commit of a later update (commit_batch_update recount): pending parents == parents not in a terminal state (truth table over the
-      8 states), Ready iff that count is 0, cancelled raised iff some finished parent is not Success, stored count == recount
+      parents; every parent id yields a job_parents row (batch, job, parent); the edge insert rejects a repeated parent id (the count
+      is the list length, the rows are keyed: a tolerant insert leaves a surplus that is never decremented)
+  R2  completion of a parent - COMPOSITE effect of the effective mark_job_complete (called procedures inlined) on the `jobs` table,
+      obtained by interpreting the routine over a micro-world (engines/jobgraphfacts.py): for every terminal new_state, every prior
+      state of the job itself and attempt-id relation, and every dependent (n_pending_parents 1..3 x cancelled x always_run):
+      with the job's own terminal transition and only then, the dependent's count drops by exactly one, it is Ready iff that was
+      the last pending parent (always_run or not, whatever the parent's outcome), it is cancelled iff it was or the parent did not
+      succeed (flag not consulted for always_run); a non-dependent, the job's own parent and a dependent in another batch are
+      untouched.  However the effect is split over statements, guards, helper procedures or join shapes.
+  R3  commit of a later update - COMPOSITE effect of the effective commit_batch_update on `jobs`, same technique: pending parents ==
+      parents not in a terminal state (8 states, parent without job row, same-update parent; multisets of <= 2), Ready iff 0,
+      cancelled raised iff some finished parent is not Success, for every stored count reachable while the update was open; each child
+      over its own parents; jobs outside the update's reserved id range and other batches untouched
   R4  consumers: the schedulers start non-always-run jobs only with cancelled = 0 (always-run jobs regardless)  [shared with C07-R5]
+Sibling agreement (which parent states count as done) is obtained by checking R2 and R3 against the same terminal set.
 Not decided: DAG arithmetic over interleavings; see C41 for uncommitted updates.
 """
 from __future__ import annotations
@@ -16,6 +24,7 @@ import ast
 import itertools
 from typing import Dict, List, Optional
 
+from engines import jobgraphfacts as jg
 from engines import pyfacts as pf
 from engines import sqlfront as sf
 from engines import sqlrules as sr
@@ -25,10 +34,12 @@ from engines.sqleval import ev
 
 META = dict(
     category='other',
-    text='The three places where dependency state is written (submission, parent completion, commit recount) are checked clause by clause against the '
-         'statement: initial state, decrement-by-one with a threshold consistent with assignment order, terminal-state complement by truth table, failure propagation.',
-    note='MySQL evaluates single-row UPDATE assignments left to right (relied upon by the repository for IF(n_pending_parents = 1, ..) before the decrement). Trusted: SQL parser/evaluator.',
-    technique='static analysis: SQL AST rules + truth tables over the job-state domain + Python def-use at the submission site',
+    text='The three places where dependency state is written (submission, parent completion, commit recount) are checked against the statement: the submission site '
+         'structurally, the two stored routines by their composite effect on a finite micro-world (our own interpreter over the extracted routine bodies): initial state, '
+         'decrement-by-one exactly with the parent\'s terminal transition, Ready iff last parent, failure propagation, terminal-state complement, untouched bystanders.',
+    note='MySQL evaluates UPDATE assignments left to right (relied upon by the repository for IF(n_pending_parents = 1, ..) before the decrement). Triggers are checked not to write the '
+         'modelled tables. Trusted: SQL parser/evaluator, the micro-world interpreter (engines/jobgraphfacts.py).',
+    technique='static analysis: interpretation of extracted SQL routine bodies over a finite relational micro-world + Python def-use at the submission site',
     design_ref='DESIGN.md §3 C05',
 )
 
@@ -43,7 +54,19 @@ def r1(ctx: Ctx) -> None:
     ctx.need(len(ifs) == 1, '_create_jobs: branch assigning state = Ready not found exactly once')
     br = ifs[0]
     cons = f'{m.rel}::_create_jobs'
-    atoms = sorted(pf.nsrc(v) for v in (br.test.values if isinstance(br.test, ast.BoolOp) and isinstance(br.test.op, ast.And) else [br.test]))
+    def norm_atom(a: ast.expr) -> str:
+        # single-definition locals standing for an operand are followed (n = len(parent_ids); if update_id == 1 and n == 0), `not parent_ids` is the empty test
+        if isinstance(a, ast.UnaryOp) and isinstance(a.op, ast.Not) and pf.nsrc(pf.resolve_expr(fn, a.operand)) == 'parent_ids':
+            return 'len(parent_ids) == 0'
+        if isinstance(a, ast.Name):
+            a = pf.resolve_expr(fn, a)
+        if isinstance(a, ast.Compare) and len(a.ops) == 1 and isinstance(a.ops[0], ast.Eq):
+            l, r_ = (x if pf.nsrc(x) == 'parent_ids' else pf.resolve_expr(fn, x) for x in (a.left, a.comparators[0]))
+            if isinstance(l, ast.Constant) and not isinstance(r_, ast.Constant):
+                l, r_ = r_, l
+            return f'{pf.nsrc(l)} == {pf.nsrc(r_)}'
+        return pf.nsrc(a)
+    atoms = sorted(norm_atom(v) for v in (br.test.values if isinstance(br.test, ast.BoolOp) and isinstance(br.test.op, ast.And) else [br.test]))
     ctx.check(atoms == ['len(parent_ids) == 0', 'update_id == 1'], 'R1', cons + '::Ready condition',
               f'a job is inserted Ready when `{pf.nsrc(br.test)}`; it must require both "no parents" and "first update" (later updates may depend on running jobs of earlier ones)', m.path, br.lineno)
     other = [pf.const_str(s.value) for s in ast.walk(fn) if isinstance(s, ast.Assign) and pf.nsrc(s.targets[0]) == 'state' and pf.const_str(s.value) is not None]
@@ -65,7 +88,7 @@ def r1(ctx: Ctx) -> None:
     ctx.need(jobs_tuple is not None and 'jobs' in embs and 'job_parents' in embs, '_create_jobs: jobs / job_parents inserts not found')
     je, jst = embs['jobs']
     ctx.need(jst.cols is not None and len(jst.cols) == len(jobs_tuple.elts), '_create_jobs: jobs insert arity')
-    jmap = {c.lower(): pf.nsrc(x) for c, x in zip(jst.cols, jobs_tuple.elts)}
+    jmap = {c.lower(): pf.nsrc(pf.resolve_expr(fn, x) if isinstance(x, ast.Name) and x.id != 'parent_ids' else x) for c, x in zip(jst.cols, jobs_tuple.elts)}
     ctx.check(jmap.get('n_pending_parents') == 'len(parent_ids)', 'R1', cons + '::n_pending_parents', f'n_pending_parents column receives `{jmap.get("n_pending_parents")}`, expected len(parent_ids)', m.path, jobs_tuple.lineno)
     ok = len(parents_append) == 1
     if ok:
@@ -76,197 +99,216 @@ def r1(ctx: Ctx) -> None:
     pe, pst = embs['job_parents']
     ok = ok and [c.lower() for c in (pst.cols or [])] == ['batch_id', 'job_id', 'parent_id'] and pf.nsrc(pe.call.args[1]) == 'job_parents_args' and pe.method == 'execute_many'
     ctx.check(ok, 'R1', cons + '::job_parents rows', 'not every id in parent_ids produces a (batch_id, job_id, parent_id) row in job_parents (a missing edge lets a child start before that parent)', m.path, pe.lineno)
+    # the stored count is the LENGTH of the list while the rows are keyed (batch_id, job_id, parent_id): the two agree only because a repeated parent id is
+    # rejected by the primary key.  An insert that tolerates the duplicate (IGNORE / ON DUPLICATE KEY / REPLACE) stores fewer edges than the count:
+    # the surplus is never decremented and the child never becomes Ready.
+    strict = not getattr(pst, 'ignore', False) and not getattr(pst, 'replace', False) and not getattr(pst, 'on_dup', None)
+    ctx.check(strict, 'R1', cons + '::count equals rows', 'the job_parents insert tolerates a repeated parent id (IGNORE / REPLACE / ON DUPLICATE KEY) while n_pending_parents counts the list with repeats: '
+              'a job submitted with parent_ids [p, p] gets n_pending_parents = 2 but one edge, is decremented once when p finishes and stays Pending for ever', m.path, pe.lineno)
     # parent_ids is what the dependency count and the rows are both derived from: same variable in the Ready test
     ctx.unit('submission_sites', 1)
 
 
+def _fmt_row(r: Dict[str, object]) -> str:
+    return f"(state={r['state']}, n_pending_parents={r['n_pending_parents']}, cancelled={r['cancelled']})"
+
+
 def r2(ctx: Ctx, prog: sf.SqlProgram) -> None:
+    """COMPOSITE effect of mark_job_complete on the dependents of the finishing job, by interpretation of the effective routine
+    (with called procedures inlined) over a micro-world: the job itself (every prior state x attempt-id match / mismatch / none), one
+    dependent (n_pending_parents 1..3 x cancelled x always_run), a job of the same batch that is not a dependent, and a like-numbered
+    dependent in another batch.  However the statements are split, guarded or joined, the table of the property must come out:
+    with the job's own terminal transition - and only then - the dependent's count drops by one, it is Ready iff that was the last
+    pending parent, and (unless always_run, where the flag is not consulted) it is cancelled iff it already was or the parent did
+    not succeed; nothing else in `jobs` moves."""
     r = prog.routine('mark_job_complete')
-    sts = [(st, g) for st, g in sf.guarded_statements(r.ast.body) if st.kind == 'update' and 'job_parents' in [t.lower() for t in sf.table_names(st.frm)]]
-    ctx.need(len(sts) == 1, 'mark_job_complete: children update not found exactly once')
-    st, guard = sts[0]
+    params = jg.routine_params(prog, 'mark_job_complete')
+    ctx.need({'in_batch_id', 'in_job_id', 'new_state'} <= set(params), f'mark_job_complete: parameters {params} (expected in_batch_id, in_job_id, new_state)')
+    jg.need_no_trigger_feedback(prog, ['jobs', 'job_parents'])
+    schema = jg.full_schema(prog)
     cons = f'{r.file}::mark_job_complete::children update'
-    sets = [(text(c).lower().split('.')[-1], v) for c, v in st.sets if c.kind == 'col' and (len(c.parts) == 1 or c.parts[-2].lower() == 'jobs')]
-    names = [n for n, _ in sets]
-    d = dict(sets)
-    ctx.need({'state', 'n_pending_parents', 'cancelled'} <= set(names), 'children update does not set state, n_pending_parents and cancelled')
-    dec = d['n_pending_parents']
-    ctx.check(text(dec).lower() in ('(jobs.n_pending_parents - 1)', '(n_pending_parents - 1)'), 'R2', cons + '::decrement', f'pending count is set to `{text(dec)}`, expected n_pending_parents - 1 '
-              '(one parent finished)', r.file, r.line_of(st))
-    # threshold consistent with assignment order
-    before = names.index('state') < names.index('n_pending_parents')
-    sv = d['state']
-    ok = sv.kind == 'func' and sv.name == 'IF' and len(sv.args) == 3 and text(sv.args[1]) == "'Ready'" and text(sv.args[2]) == "'Pending'" and \
-        sv.args[0].kind == 'bin' and sv.args[0].op == '=' and text(sv.args[0].left).lower().split('.')[-1] == 'n_pending_parents' and \
-        sv.args[0].right.kind == 'lit' and sv.args[0].right.value == (1 if before else 0)
-    ctx.check(ok, 'R2', cons + '::Ready threshold', f'state is set to `{text(sv)}` {"before" if before else "after"} the decrement; the child must become Ready exactly when its last pending parent '
-              f'finishes (compare the count with {1 if before else 0} at this position)', r.file, r.line_of(st))
-    cv = d['cancelled']
-    wrong = None
-    if cv.kind == 'func' and cv.name == 'IF':
-        for ns, old in itertools.product(sorted(TERMINAL), (0, 1)):
-            got = ev(cv, lambda c: ns if text(c).lower() == 'new_state' else old)
-            want = old if ns == 'Success' else 1
-            if got != want:
-                wrong = (ns, old, got, want)
-    else:
-        wrong = ('?', '?', text(cv), 'IF(new_state = Success, cancelled, 1)')
-    ctx.check(wrong is None, 'R2', cons + '::failure propagation', f'when the parent ends in {wrong[0]} and the child had cancelled={wrong[1]} the child gets cancelled={wrong[2]}, expected {wrong[3]}' if wrong else '',
-              r.file, r.line_of(st))
-    on = [text(c).lower() for j in st.frm.joins for c in sf.conjuncts(j.on)]
-    where = [text(c).lower() for c in sf.conjuncts(st.where)]
-    joined = '(jobs.batch_id = job_parents.batch_id)' in on and '(jobs.job_id = job_parents.job_id)' in on
-    scoped = '(job_parents.parent_id = in_job_id)' in where and ('(job_parents.batch_id = in_batch_id)' in where or '(jobs.batch_id = in_batch_id)' in where)
-    inner = any(j.jtype == 'INNER' and j.ref.kind == 'table' and j.ref.name.lower() == 'job_parents' for j in st.frm.joins)
-    ctx.check(joined and scoped and inner, 'R2', cons + '::children only', 'the rows updated are not exactly the jobs having this job as parent in this batch', r.file, r.line_of(st))
+    writers = [st for st in sf.all_statements(r.ast.body) if st.kind == 'update' and 'jobs' in [t.lower() for t, _ in sf.written_tables(st)]
+               and 'job_parents' in [t.lower() for t in sf.table_names(st.frm)]]
+    line = r.line_of(writers[0]) if writers else r.line
+
+    def world(own_state, own_attempt, k, c, a):
+        jobs = [
+            dict(batch_id=1, job_id=5, state=own_state, n_pending_parents=0, cancelled=0, always_run=0, attempt_id=own_attempt, job_group_id=2),
+            dict(batch_id=1, job_id=7, state='Pending', n_pending_parents=k, cancelled=c, always_run=a, attempt_id=None, job_group_id=2),
+            dict(batch_id=1, job_id=8, state='Pending', n_pending_parents=1, cancelled=0, always_run=0, attempt_id=None, job_group_id=2),
+            dict(batch_id=2, job_id=7, state='Pending', n_pending_parents=1, cancelled=0, always_run=0, attempt_id=None, job_group_id=0),
+            dict(batch_id=2, job_id=5, state='Running', n_pending_parents=0, cancelled=0, always_run=0, attempt_id='a', job_group_id=0),
+            dict(batch_id=1, job_id=4, state='Running', n_pending_parents=1, cancelled=0, always_run=0, attempt_id='z', job_group_id=2),
+        ]
+        # edges: 5 -> 7 (the dependent), 6 -> 8 (bystander), batch 2: 5 -> 7, and 4 -> 5 would be the job's own PARENT (4 depends on nothing here;
+        # the row (1, 5, 4) makes job 4 a parent of 5: a statement that walks the edge in the wrong direction would touch job 4)
+        jp = [dict(batch_id=1, job_id=7, parent_id=5), dict(batch_id=1, job_id=8, parent_id=6), dict(batch_id=2, job_id=7, parent_id=5),
+              dict(batch_id=1, job_id=5, parent_id=4)]
+        return jg.World(schema, {'jobs': jobs, 'job_parents': jp})
+
+    grid = [(os_, 'a', k, c, a) for os_ in STATES for k in (1, 2, 3) for c in (0, 1) for a in (0, 1)]
+    grid += [(os_, at, 1, 0, 0) for os_ in STATES for at in (None, 'b')]
+    fails: Dict[str, str] = {}
+    n_cases = n_trans = 0
+    stmts_seen: List[str] = []
+    for ns in sorted(TERMINAL):
+        for own_state, own_attempt, k, c, a in grid:
+            w = world(own_state, own_attempt, k, c, a)
+            before = w.snapshot()['jobs']
+            it = jg.Interp(prog, w)
+            args = {'in_batch_id': 1, 'in_job_id': 5, 'new_state': ns, 'in_attempt_id': 'a', 'new_timestamp': 1000}
+            it.call('mark_job_complete', args)
+            n_cases += 1
+            after = w.rows['jobs']
+            for s_ in jg.jobs_writers(it, 'jobs'):
+                if s_ not in stmts_seen:
+                    stmts_seen.append(s_)
+            for row in after:
+                for col in ('state', 'n_pending_parents', 'cancelled'):
+                    ctx.need(row[col] is not jg.UNK, f'mark_job_complete: jobs.{col} receives a value the model cannot determine')
+            own_b, own_a = before[0], after[0]
+            child_b, child_a = before[1], after[1]
+            transition = own_b['state'] != own_a['state'] and own_a['state'] in TERMINAL
+            hist = (f'job in state {own_state} (attempt_id {"matching" if own_attempt == "a" else ("NULL" if own_attempt is None else "of another attempt")}) reported {ns}; '
+                    f'dependent before {_fmt_row(child_b)}, always_run={a}')
+            by = [(b_, a_) for b_, a_ in zip(before[2:], after[2:]) if any(b_[c_] != a_[c_] for c_ in ('state', 'n_pending_parents', 'cancelled'))]
+            if by:
+                b_, a_ = by[0]
+                fails.setdefault('children only', f'{hist}: job (batch {b_["batch_id"]}, job {b_["job_id"]}), which is not a dependent of the finishing job in its batch, changes from {_fmt_row(b_)} to {_fmt_row(a_)}')
+            if not transition:
+                if any(child_b[c_] != child_a[c_] for c_ in ('state', 'n_pending_parents', 'cancelled')):
+                    fails.setdefault('only with the transition', f'{hist}: the job itself makes no terminal transition in this call (its state stays {own_a["state"]}), yet the dependent changes to {_fmt_row(child_a)} '
+                                     '(a repeated or rejected completion message must not count the parent again)')
+                continue
+            n_trans += 1
+            if child_a['n_pending_parents'] != k - 1:
+                fails.setdefault('decrement', f'{hist}: pending count becomes {child_a["n_pending_parents"]}, expected {k - 1} (exactly one parent finished)')
+            want_state = 'Ready' if k == 1 else 'Pending'
+            if child_a['state'] != want_state:
+                fails.setdefault('Ready threshold', f'{hist}: dependent ends in state {child_a["state"]}, expected {want_state} (Ready exactly when its last pending parent finishes, whatever the outcome and for always_run jobs too)')
+            want_c = bool(c or ns != 'Success')
+            if not a and bool(child_a['cancelled']) != want_c:
+                fails.setdefault('failure propagation', f'{hist}: dependent gets cancelled={child_a["cancelled"]}, expected {int(want_c)} '
+                                 f'({"a parent that ends " + ns + " did not succeed: the dependent must not run" if want_c else "a successful parent must not cancel its dependent"})')
+    ctx.need(n_trans > 0, 'mark_job_complete: no modelled call makes the job\'s own terminal transition (own-state update not recognised)')
+    ctx.need(writers or stmts_seen, 'mark_job_complete: no statement updates the dependents (jobs joined through job_parents)')
+    detail = {'cases': n_cases, 'with_transition': n_trans, 'statements': stmts_seen}
+    for key in ('decrement', 'Ready threshold', 'failure propagation', 'children only', 'only with the transition'):
+        ctx.check(key not in fails, 'R2', f'{cons}::{key}', fails.get(key, '') + (f' [statements writing jobs: {stmts_seen}]' if key in fails else ''), r.file, line, detail=detail)
+    ctx.unit('completion_model_cases', n_cases)
 
 
 NONTERMINAL = {'Pending', 'Ready', 'Creating', 'Running'}
 
 
-def _agg_eval(e: N, rows: List[Dict[str, object]], consts: Dict[str, object]):
-    """Evaluate a select-list expression of a GROUP BY sub-select over the rows of one group (aggregates: SUM, COUNT, MAX, MIN)."""
-    from engines.sqleval import Unbound
-
-    def row_env(row):
-        def env(c: N):
-            t = text(c).lower().replace('`', '')
-            if t in row:
-                return row[t]
-            if t in consts:
-                return consts[t]
-            last = t.split('.')[-1]
-            if last in row:
-                return row[last]
-            raise AnalysisError(f'recount sub-select reads `{t}` which the model does not provide')
-        return env
-    if e.kind == 'func' and e.name in ('SUM', 'COUNT', 'MAX', 'MIN'):
-        if e.name == 'COUNT' and e.args and e.args[0].kind == 'star':
-            return len(rows)
-        vals = [ev(e.args[0], row_env(r)) for r in rows]
-        vals = [int(v) if isinstance(v, bool) else v for v in vals if v is not None]
-        if e.name == 'COUNT':
-            return len(vals)
-        if not vals:
-            return None
-        return {'SUM': sum, 'MAX': max, 'MIN': min}[e.name](vals)
-    if e.kind == 'func' and e.name in ('COALESCE', 'IFNULL'):
-        for a in e.args:
-            v = _agg_eval(a, rows, consts)
-            if v is not None:
-                return v
-        return None
-    if e.kind == 'cast':
-        return _agg_eval(e.arg, rows, consts)
-    if e.kind == 'bin' and e.op in ('+', '-', '*'):
-        a, b = _agg_eval(e.left, rows, consts), _agg_eval(e.right, rows, consts)
-        if a is None or b is None:
-            return None
-        return {'+': a + b, '-': a - b, '*': a * b}[e.op]
-    if e.kind == 'lit':
-        return e.value
-    if e.kind == 'col':
-        # a grouping column: same for all rows
-        return row_env(rows[0])(e) if rows else None
-    raise AnalysisError(f'recount sub-select column `{text(e)[:60]}` uses a construct the model does not evaluate')
-
-
 def r3(ctx: Ctx, prog: sf.SqlProgram) -> None:
-    """Model evaluation of the commit-time recount: for every small multiset of parents (state or missing row, earlier update or same
-    update) and every stored n_pending_parents value reachable before the commit, the statement must leave the child with
-    n_pending_parents == number of non-terminal parents, Ready iff that is 0, cancelled raised iff a finished parent did not succeed."""
+    """Commit of a later update, by interpretation of the effective commit_batch_update over a micro-world: the update's jobs are a
+    child under test (every multiset of <= 2 parents: earlier-update parent in each of the 8 states or without a job row, same-update
+    parent; every stored n_pending_parents reachable while the update was open; cancelled 0/1), a second child with a running parent,
+    a parentless job; around them an earlier running job with a finished parent, the job just above the reserved id range and a
+    look-alike child in another batch.  Composite effect required: pending = parents not in a terminal state, Ready iff 0, cancelled
+    raised iff a finished parent did not succeed; every other job untouched."""
     r = prog.routine('commit_batch_update')
-    sts = [(st, g) for st, g in sf.guarded_statements(r.ast.body) if st.kind == 'update' and sf.table_names(st.frm)[:1] == ['jobs']]
-    ctx.need(len(sts) == 1, 'commit_batch_update: recount update not found')
-    st, guard = sts[0]
+    params = jg.routine_params(prog, 'commit_batch_update')
+    ctx.need({'in_batch_id', 'in_update_id'} <= set(params), f'commit_batch_update: parameters {params}')
+    tabs = ['jobs', 'job_parents', 'batch_updates', 'job_groups_inst_coll_staging', 'batches', 'job_groups']
+    jg.need_no_trigger_feedback(prog, tabs)
+    schema = jg.full_schema(prog)
     cons = f'{r.file}::commit_batch_update::recount'
-    der = [t for t in sf.from_tables(st.frm) if t.kind == 'derived']
-    ctx.need(len(der) == 1, 'commit_batch_update: recount sub-select not found')
-    sub = der[0].select
-    al = der[0].alias.lower()
-    join = [j for j in st.frm.joins if j.ref is der[0]][0]
-    ctx.need(sf.table_names(sub.frm)[0].lower() == 'job_parents', 'recount sub-select is not driven from job_parents')
-    pj = [j for j in sub.frm.joins if j.ref.kind == 'table' and j.ref.name.lower() == 'jobs']
-    ctx.need(len(pj) == 1, 'recount sub-select does not join the parents\' job rows')
-    on = [text(c).lower().replace('`', '') for c in sf.conjuncts(pj[0].on)]
-    okj = '(jobs.job_id = job_parents.parent_id)' in on and '(jobs.batch_id = job_parents.batch_id)' in on
-    ctx.check(okj, 'R3', cons + '::parent join', 'the recount does not read each child\'s parents through job_parents.parent_id', r.file, r.line_of(st))
-    grp = sorted(text(g).lower().replace('`', '') for g in sub.group)
-    ctx.check(grp == ['job_parents.batch_id', 'job_parents.job_id'], 'R3', cons + '::grouping', f'parents are aggregated per {grp}, expected per child (batch_id, job_id)', r.file, r.line_of(st))
-    outer_on = [text(c).lower() for c in sf.conjuncts(join.on)]
-    ctx.check(f'(jobs.batch_id = {al}.batch_id)' in outer_on and f'(jobs.job_id = {al}.job_id)' in outer_on, 'R3', cons + '::child join', 'recount rows are not joined to the child by (batch_id, job_id)',
-              r.file, r.line_of(st))
-    START, N_JOBS, CHILD = 10, 10, 12
-    consts = {'in_batch_id': 1, 'cur_update_start_job_id': START, 'staging_n_jobs': N_JOBS, 'expected_n_jobs': N_JOBS, 'in_update_id': 2, 'in_timestamp': 1000}
+    writers = [st for st in sf.all_statements(r.ast.body) if st.kind == 'update' and 'jobs' in [t.lower() for t, _ in sf.written_tables(st)]]
+    ctx.need(writers, 'commit_batch_update: no statement updates jobs (recount not found)')
+    line = r.line_of(writers[0])
+    START, N = 10, 5  # update 2 reserves job ids 10..14
     options = [(s_, True) for s_ in STATES + [None]] + [('Pending', False)]
-    import itertools as it
-    parent_sets = [()] + [(o,) for o in options] + list(it.combinations_with_replacement(options, 2))
-    sets = [(c, v) for c, v in st.sets if c.kind == 'col' and (len(c.parts) == 1 or c.parts[-2].lower() == 'jobs')]
-    n_cases = 0
-    bad = None
-    for parents in parent_sets:
-        rows = []
-        for i, (pstate, earlier) in enumerate(parents):
-            pid = (3 + i) if earlier else 11
-            row = {'job_parents.batch_id': 1, 'job_parents.job_id': CHILD, 'job_parents.parent_id': pid, 'state': pstate, 'jobs.state': pstate,
-                   'jobs.job_id': pid if pstate is not None else None, 'jobs.batch_id': 1 if pstate is not None else None}
+    parent_sets = [()] + [(o,) for o in options] + list(itertools.combinations_with_replacement(options, 2))
 
-            def wenv(c: N, row=row):
-                t = text(c).lower().replace('`', '')
-                if t in row:
-                    return row[t]
-                if t in consts:
-                    return consts[t]
-                raise AnalysisError(f'recount WHERE reads `{t}`')
-            keep = all(bool(ev(c, wenv)) for c in sf.conjuncts(sub.where))
-            if keep:
-                rows.append(row)
-        tvals: Dict[str, object] = {}
-        matched = bool(rows)
-        if matched:
-            for c, a in sub.cols:
-                name = (a or text(c).split('.')[-1]).lower().replace('`', '')
-                tvals[name] = _agg_eval(c, rows, consts)
-        if not matched and join.jtype != 'LEFT':
-            outcomes = None  # child row not updated at all
+    def job(b, j, state, npp=0, canc=0, upd=1):
+        return dict(batch_id=b, job_id=j, state=state, n_pending_parents=npp, cancelled=canc, always_run=0, update_id=upd, job_group_id=0, attempt_id=None)
+
+    def world(parents, v0, c_old):
+        jobs = [job(1, 12, 'Pending', v0, c_old, 2), job(1, 13, 'Pending', 1, 0, 2), job(1, 14, 'Pending', 0, c_old, 2),
+                job(1, 9, 'Running'), job(1, 5, 'Running'), job(1, 2, 'Failed'), job(1, 15, 'Pending', 1, 0, 3),
+                job(2, 12, 'Pending', 1, 0, 2), job(2, 3, 'Success')]
+        jp = [dict(batch_id=1, job_id=13, parent_id=9), dict(batch_id=1, job_id=5, parent_id=2), dict(batch_id=1, job_id=15, parent_id=2),
+              dict(batch_id=2, job_id=12, parent_id=3)]
+        e_ids, s_ids = [3, 4], [10, 11]
+        present = set()
+        for pstate, earlier in parents:
+            pid = e_ids.pop(0) if earlier else s_ids.pop(0)
+            jp.append(dict(batch_id=1, job_id=12, parent_id=pid))
+            if pstate is not None:
+                jobs.append(job(1, pid, pstate, 0, 0, 1 if earlier else 2))
+                present.add(pid)
+        for pid in (10, 11):
+            if pid not in present:
+                jobs.append(job(1, pid, 'Pending', 0, 0, 2))
+        rows = {
+            'jobs': jobs, 'job_parents': jp,
+            'batch_updates': [dict(batch_id=1, update_id=1, committed=1, n_jobs=9, start_job_id=1, time_committed=1),
+                              dict(batch_id=1, update_id=2, committed=0, n_jobs=N, start_job_id=START, time_committed=None),
+                              dict(batch_id=2, update_id=2, committed=0, n_jobs=1, start_job_id=12, time_committed=None)],
+            'job_groups_inst_coll_staging': [dict(batch_id=1, update_id=2, job_group_id=0, inst_coll='x', token=0, n_jobs=3, n_ready_jobs=0, ready_cores_mcpu=0),
+                                             dict(batch_id=1, update_id=2, job_group_id=0, inst_coll='x', token=1, n_jobs=2, n_ready_jobs=0, ready_cores_mcpu=0),
+                                             dict(batch_id=2, update_id=2, job_group_id=0, inst_coll='x', token=0, n_jobs=1, n_ready_jobs=0, ready_cores_mcpu=0)],
+            'batches': [dict(id=1, state='complete', n_jobs=9, time_completed=500), dict(id=2, state='complete', n_jobs=0, time_completed=500)],
+            'job_groups': [dict(batch_id=1, job_group_id=0, state='complete', n_jobs=9, time_completed=500), dict(batch_id=2, job_group_id=0, state='complete', n_jobs=0, time_completed=500)],
+        }
+        return jg.World(schema, rows)
+
+    fails: Dict[str, str] = {}
+    n_cases = 0
+    stmts_seen: List[str] = []
+    cols = ('state', 'n_pending_parents', 'cancelled')
+    for parents in parent_sets:
         n_term_earlier = sum(1 for pstate, earlier in parents if earlier and pstate is not None and pstate not in NONTERMINAL)
         for k in range(0, n_term_earlier + 1):
             v0 = len(parents) - k
             for c_old in (0, 1):
                 n_cases += 1
-                cur = {'jobs.state': 'Pending', 'jobs.n_pending_parents': v0, 'jobs.cancelled': c_old}
-                if matched or join.jtype == 'LEFT':
-                    for col, val in sets:
-                        def oenv(c: N):
-                            t = text(c).lower().replace('`', '')
-                            if t.startswith(al + '.'):
-                                return tvals.get(t[len(al) + 1:]) if matched else None
-                            if t in cur:
-                                return cur[t]
-                            if 'jobs.' + t in cur:
-                                return cur['jobs.' + t]
-                            if t in consts:
-                                return consts[t]
-                            if t.startswith('jobs_telemetry.'):
-                                return None
-                            raise AnalysisError(f'recount SET reads `{t}`')
-                        cur['jobs.' + col.parts[-1].lower()] = ev(val, oenv)
+                w = world(parents, v0, c_old)
+                before = {(x['batch_id'], x['job_id']): dict(x) for x in w.rows['jobs']}
+                it = jg.Interp(prog, w)
+                it.call('commit_batch_update', {'in_batch_id': 1, 'in_update_id': 2, 'in_timestamp': 1000})
+                after = {(x['batch_id'], x['job_id']): x for x in w.rows['jobs']}
+                for s_ in jg.jobs_writers(it, 'jobs'):
+                    if s_ not in stmts_seen:
+                        stmts_seen.append(s_)
+                ctx.need([x for x in w.rows['batch_updates'] if x['batch_id'] == 1 and x['update_id'] == 2][0]['committed'] not in (0, None),
+                         'commit_batch_update: the modelled update is not committed by the call (commit path not recognised)')
+                for row in after.values():
+                    for col in cols:
+                        ctx.need(row[col] is not jg.UNK, f'commit_batch_update: jobs.{col} receives a value the model cannot determine')
+                desc = [f'{"a parent id without job row" if s_ is None else s_}{"" if e_ else " (same update)"}' for s_, e_ in parents]
+                hist = f'child with parents {desc}, stored n_pending_parents={v0}, cancelled={c_old} before the commit'
+                got = after[(1, 12)]
                 want_pending = sum(1 for pstate, _ in parents if pstate in NONTERMINAL)
                 want_state = 'Ready' if want_pending == 0 else 'Pending'
                 failed = any(pstate is not None and pstate not in NONTERMINAL and pstate != 'Success' for pstate, _ in parents)
                 missing = any(pstate is None for pstate, _ in parents)
-                got = (cur['jobs.state'], cur['jobs.n_pending_parents'], cur['jobs.cancelled'])
-                ok = got[0] == want_state and got[1] == want_pending and (missing or bool(got[2]) == bool(failed or c_old))
-                if not ok and bad is None:
-                    bad = (parents, v0, c_old, got, (want_state, want_pending, int(failed or c_old)))
-    if bad:
-        parents, v0, c_old, got, want = bad
-        desc = [f'{"missing row" if s_ is None else s_}{"" if e_ else " (same update)"}' for s_, e_ in parents]
-        ctx.bad('R3', cons + '::model', f'child with parents {desc}, stored n_pending_parents={v0}, cancelled={c_old} before the commit ends as (state, n_pending_parents, cancelled)={got}; '
-                f'the dependency rule requires {want} (pending = parents not in a terminal state; a stored count already decremented by a parent that finished while the update was open '
-                'must not be decremented again, and a parent id without a job row must not block the child forever)', r.file, r.line_of(st), extra={'cases': n_cases})
-    else:
-        ctx.ok('R3', cons + '::model', {'cases': n_cases, 'parent_multisets': len(parent_sets)})
+                ok = got['state'] == want_state and got['n_pending_parents'] == want_pending and (missing or bool(got['cancelled']) == bool(failed or c_old))
+                if not ok:
+                    fails.setdefault('model', f'{hist} ends as {_fmt_row(got)}; the dependency rule requires (state={want_state}, n_pending_parents={want_pending}, cancelled={int(failed or c_old)}) '
+                                     '(pending = parents not in a terminal state; a stored count already decremented by a parent that finished while the update was open must not be '
+                                     'decremented again; a parent id without a job row must not block the child forever; a parentless job of the update must become Ready)')
+                g14 = after[(1, 14)]
+                if not (g14['state'] == 'Ready' and g14['n_pending_parents'] == 0 and bool(g14['cancelled']) == bool(c_old)):
+                    fails.setdefault('model', f'parentless job of the committed update (cancelled={c_old} before) ends as {_fmt_row(g14)}; expected (state=Ready, n_pending_parents=0, cancelled={c_old}): '
+                                     'a job without parents that is not made Ready at commit never runs')
+                g13 = after[(1, 13)]
+                if not (g13['state'] == 'Pending' and g13['n_pending_parents'] == 1 and not g13['cancelled']):
+                    fails.setdefault('per child', f'{hist}: ANOTHER job of the same update, whose only parent is Running, ends as {_fmt_row(g13)}; expected (state=Pending, n_pending_parents=1, cancelled=0) '
+                                     '- each child must be recounted over its own parents only')
+                for key in ((1, 9), (1, 5), (1, 2), (1, 15), (1, 3), (1, 4), (1, 10), (1, 11)):
+                    if key in before and key not in ((1, 10), (1, 11)) and any(before[key][c_] != after[key][c_] for c_ in cols):
+                        fails.setdefault('range', f'{hist}: job {key[1]} of batch 1, which does not belong to the committed update (its ids are {START}..{START + N - 1}), changes from {_fmt_row(before[key])} to '
+                                         f'{_fmt_row(after[key])}; running or finished jobs of earlier updates must not be re-evaluated (a Running job set back to Ready is executed twice)')
+                for key in ((2, 12), (2, 3)):
+                    if any(before[key][c_] != after[key][c_] for c_ in cols):
+                        fails.setdefault('other batch', f'{hist}: job {key[1]} of ANOTHER batch changes from {_fmt_row(before[key])} to {_fmt_row(after[key])}')
+    detail = {'cases': n_cases, 'parent_multisets': len(parent_sets), 'statements': stmts_seen}
+    for key in ('model', 'per child', 'range', 'other batch'):
+        ctx.check(key not in fails, 'R3', f'{cons}::{key}', fails.get(key, '') + (f' [statements writing jobs: {stmts_seen}]' if key in fails else ''), r.file, line, detail=detail,
+                  extra={'cases': n_cases} if key in fails else None)
     ctx.unit('recount_model_cases', n_cases)
 
 
@@ -290,9 +332,9 @@ def r4(ctx: Ctx) -> None:
 
 def run(ctx: Ctx) -> None:
     ctx.explanation = 'Clause-by-clause check of the three writers of dependency state and of the scheduler selections that consume the cancelled flag.'
-    ctx.rule('R1', 'submission: Ready only for first-update jobs without parents; n_pending_parents = len(parent_ids); one job_parents row per parent', 4)
-    ctx.rule('R2', 'parent completion: count - 1, Ready iff last pending parent (order-consistent threshold), cancelled iff parent not Success, exactly this job\'s children', 4)
-    ctx.rule('R3', 'commit recount (model evaluation over parent multisets x reachable stored counts): pending = non-terminal parents, Ready iff 0, cancelled iff a finished parent failed', 4)
+    ctx.rule('R1', 'submission: Ready only for first-update jobs without parents; n_pending_parents = len(parent_ids); one job_parents row per parent, duplicates rejected', 5)
+    ctx.rule('R2', 'parent completion, composite effect of mark_job_complete on the dependents (micro-world interpretation): with the job\'s own terminal transition and only then: count - 1, Ready iff last pending parent, cancelled iff parent not Success (flag irrelevant for always_run), nothing but this job\'s children touched', 5)
+    ctx.rule('R3', 'commit recount, composite effect of commit_batch_update on jobs (micro-world interpretation over parent multisets x reachable stored counts): pending = non-terminal parents, Ready iff 0, cancelled iff a finished parent failed; per child; only the update\'s own jobs; only this batch', 4)
     ctx.rule('R4', 'schedulers start non-always-run jobs only with cancelled = 0; always-run jobs regardless', 4)
     ctx.assume('MySQL applies the SET assignments of an UPDATE left to right, later assignments seeing earlier new values (documented for single-table UPDATE; the repository relies on it for the multi-table children update)')
     prog = sf.load_program()
